@@ -132,6 +132,18 @@ def cases(tier, seed, prop):
             elif r < .8: ab = rnd.choice(NUM_KEYS + COLOR_KEYS + ['pos', 'd', 'bd', 'trf', 'bg', 'ff']) + ''.join(rnd.choice(VALS) for _ in range(rnd.randint(1, 3)))
             else: ab = '+'.join(rnd.choice(NUM_KEYS + ['d', 'pos']) + rnd.choice([''] + VALS) for _ in range(rnd.randint(2, 3)))
             out.append({'s': ab, 'c': rand_cfg(rnd), 'g': 'mix'})
+        # half-typed input: every prefix of valid abbreviations (a sign or a dot without its digits, an open parenthesis, a quote …)
+        seen = set()
+        for _ in range(n // 10):
+            parts = []
+            for _ in range(rnd.choice([1, 1, 2])):
+                iscol = rnd.random() < .3
+                parts.append(rnd.choice(COLOR_KEYS if iscol else NUM_KEYS + ['pos', 'd', 'trf', 'lg', 'bd']) + gen_values(rnd, iscol)[0] + ('!' if rnd.random() < .2 else ''))
+            ab = '+'.join(parts) if rnd.random() < .8 else rnd.choice(['lg(to right, #0, #f.5 10%)', 'trf:r(-.5deg)', 'bg:url("a b")', "ff:'A B'", 'm-.5--1.25p', 'p$-.5', '@kf', 'bd1-s#f.5!'])
+            c = rand_cfg(rnd)
+            for i in range(1, len(ab)):
+                if ab[:i] not in seen:
+                    seen.add(ab[:i]); out.append({'s': ab[:i], 'c': c, 'g': 'prefix'})
     return out
 
 
@@ -155,7 +167,9 @@ def expand_cases_C06(tier, seed):
         v = stylesheet_snippets[k]
         if ':' not in v or v.startswith('@') or '\n' in v: continue
         prop, vals = v.split(':', 1)
-        for w in vals.split('|'):
+        # keywords: the `|` alternatives and the words offered as tabstop placeholders (`${1:inset }`: padding is not part of the keyword)
+        words = vals.split('|') + [m.group(1).strip() for m in re.finditer(r'\$\{\d+:([^}]+)\}', re.sub(r'\([^)]*\)', '', vals))]     # placeholders inside function arguments are not keywords
+        for w in dict.fromkeys(words):
             if re.fullmatch(r'[a-z]+', w):
                 forms = [w, w.upper(), w.capitalize()]
                 for f in (forms if tier != 'quick' else [rnd.choice(forms)]):
